@@ -29,8 +29,22 @@ META = {
 }
 
 L = tier(3, 4)
-LLIT = tier(2, 4)
+LLIT = tier(2, 3)  # any unicode text up to this length
+LLEX = LLIT  # (a restricted 'lexer-significant' alphabet for longer texts was tried: the membership precondition costs more than it saves)
+LIDENT = 2  # quoted identifiers of any unicode text up to this length (3 does not finish in 40 min)
 BS = chr(92)
+LEXCHARS = chr(39) + chr(34) + chr(92) + "$;-/*a \n"
+
+
+def _lex_only(t: str) -> bool:
+    for ch in t:
+        found = False
+        for c in LEXCHARS:
+            if ch == c:
+                found = True
+        if not found:
+            return False
+    return True
 
 
 def validate_contracts():
@@ -40,9 +54,9 @@ def validate_contracts():
 @ob(
     "C16.rerendered_literal_round_trip",
     encodes=["fakesnow.conn.FakeSnowflakeConnection.execute_string (re-rendering step, real)", "sqlglot Generator of the dialect execute_string chooses (real)", "sqlglot Snowflake Tokenizer._scan_string (real)"],
-    bounds="literal content t: any unicode string, |t| <= 2 (quick) / 4 (thorough)",
-    timeout=(400, 3000),
-    shards=(3, 5),
+    bounds="literal content t: any unicode string with |t| <= 2 (quick) / 3 (thorough; |t| = 3 alone takes ~17 min, |t| = 4 does not finish in 50 min); sharded by length",
+    timeout=(400, 1800),
+    shards=(3, 4),
 )
 def literal_round_trip(t: str) -> bool:
     """
@@ -109,14 +123,14 @@ REGISTRY["C16.rerendered_literal_round_trip"].real_replay = _real_literal
 @ob(
     "C16.rerendered_quoted_identifier_round_trip",
     encodes=["sqlglot Snowflake Generator on a quoted Identifier (real)", "sqlglot Snowflake Tokenizer._scan_identifier (real)"],
-    bounds="identifier text t: any unicode string without a backslash (known finding), 1 <= |t| <= 2 (quick) / 3 (thorough)",
-    timeout=(400, 2400),
-    shards=(2, 3),
+    bounds="identifier text t without a backslash (known finding): any unicode string with 1 <= |t| <= 2 (both tiers; |t| = 3 does not finish in 40 min); sharded by length",
+    timeout=(400, 1500),
+    shards=(2, 2),
     carve="C16-quoted-identifier-backslash",
 )
 def identifier_round_trip(t: str) -> bool:
     """
-    pre: 1 <= len(t) <= L - 1 and (SHARD < 0 or len(t) == SHARD + 1)
+    pre: 1 <= len(t) <= LIDENT and (SHARD < 0 or len(t) == SHARD + 1)
     pre: (len(t) < 1 or t[0] != BS) and (len(t) < 2 or t[1] != BS) and (len(t) < 3 or t[2] != BS) and (len(t) < 4 or t[3] != BS)
     post: _
     """
@@ -243,13 +257,13 @@ def _structure(k: int, i0: int, i1: int, i2: int, s0: int, s1: int, lead: int, t
     "class, error and final catalog",
     timeout=(400, 1200),
     stubs=["K1/K2 vf.duckstub.Engine"],
-    shards=(8, 8),
+    shards=(8, 50),
 )
 def structure(k: int, i0: int, i1: int, i2: int, s0: int, s1: int, lead: int, tail: int, as_dict: bool) -> bool:
     """
     pre: 0 <= k <= 3 and 0 <= i0 < 7 and 0 <= i1 < 7 and 0 <= i2 < 7 and 0 <= s0 < 7 and 0 <= s1 < 7 and 0 <= lead < 4 and 0 <= tail < 4
     pre: (k >= 3 or i2 == 0) and (k >= 2 or (i1 == 0 and s0 == 0)) and (k >= 3 or s1 == 0) and (k >= 1 or i0 == 0)
-    pre: SHARD < 0 or (i0 == SHARD % 7 if SHARD < 7 else k == 0)
+    pre: SHARD < 0 or ((i0 == SHARD % 7 if SHARD < 7 else k == 0) if KMAX == 2 else (k == 0 if SHARD == 49 else (k >= 1 and i0 == SHARD % 7 and i1 == SHARD // 7)))
     pre: k <= KMAX and (k < 2 or (lead == 0 and tail == 0))
     post: _
     """
